@@ -1,7 +1,11 @@
 // Command c08 drives a real forward.New(passHost) proxy (real net/http server on loopback) with raw
 // request bytes and reports what two raw loopback backends received and what the client got back.
 //
-//	cfg pass=0|1
+//	cfg pass=0|1 [up=none|rr-verbose|rb-debug|cb-verbose]
+//	    up: what sits in front of the forwarder and installs the backend URL. none: a bare wrapper (req.URL = copy of the
+//	    server URL); rr-verbose: a real roundrobin.RoundRobin with Verbose(true); rb-debug: a real Rebalancer with
+//	    RebalancerDebug(true) over a RoundRobin; cb-verbose: a real CircuitBreaker with Verbose(true) over a RoundRobin.
+//	    The op's be=A|B is realised by making that server the only pool member before the request.
 //	req m=<METHOD> v=0|1 t=<pe target> host=<pe host>|host=- peer=<pe RemoteAddr> tls=0|1 be=A|B
 //	    [body=<n>:<digest of fx.Body(1,n)>] [h=Name:pe(value)]... rs=<status> [rh=Name:pe(value)]...
 //	  -> <status> be=<A|B> m=<METHOD> t=<pe target> p=<proto> host=<pe Host> B <backend headers> C <client headers>
@@ -28,7 +32,9 @@ import (
 	"sync"
 	"time"
 
+	"github.com/vulcand/oxy/v2/cbreaker"
 	"github.com/vulcand/oxy/v2/forward"
+	"github.com/vulcand/oxy/v2/roundrobin"
 	"github.com/vulcand/oxy/v2/utils"
 	"github.com/vulcand/oxy/v2/zzverif/cmd/c08/fx"
 	"github.com/vulcand/oxy/v2/zzverif/hx"
@@ -55,6 +61,9 @@ type h struct {
 	bes   map[string]*fx.Backend
 	urls  map[string]*url.URL
 	seenC chan seen
+	// pool administration of the upstream balancer (nil for up=none)
+	upsert func(*url.URL) error
+	remove func(*url.URL) error
 }
 
 var hostname, _ = os.Hostname()
@@ -95,6 +104,54 @@ func newScenario(cfg []string) (hx.Handler, string) {
 	fwd := forward.New(pass)
 	s.tr = &http.Transport{DisableCompression: true, MaxIdleConnsPerHost: 4, ResponseHeaderTimeout: 4 * time.Second}
 	fwd.Transport = s.tr
+	up, _ := hx.KV(cfg, "up")
+	var next http.Handler // what the peer-forging wrapper hands the request to
+	nop := &utils.NoopLogger{}
+	switch up {
+	case "", "none":
+		next = http.HandlerFunc(func(w http.ResponseWriter, r *http.Request) {
+			s.mu.Lock()
+			o := s.cur
+			s.mu.Unlock()
+			r.URL = utils.CopyURL(s.urls[o.be])
+			fwd.ServeHTTP(w, r)
+		})
+	case "rr-verbose":
+		rr, err := roundrobin.New(fwd, roundrobin.Verbose(true), roundrobin.Logger(nop))
+		if err != nil {
+			return nil, "err " + err.Error()
+		}
+		s.upsert = func(u *url.URL) error { return rr.UpsertServer(u) }
+		s.remove = rr.RemoveServer
+		next = rr
+	case "rb-debug":
+		rr, err := roundrobin.New(fwd)
+		if err != nil {
+			return nil, "err " + err.Error()
+		}
+		rb, err := roundrobin.NewRebalancer(rr, roundrobin.RebalancerDebug(true), roundrobin.RebalancerLogger(nop))
+		if err != nil {
+			return nil, "err " + err.Error()
+		}
+		s.upsert = func(u *url.URL) error { return rb.UpsertServer(u) }
+		s.remove = rb.RemoveServer
+		next = rb
+	case "cb-verbose":
+		rr, err := roundrobin.New(fwd)
+		if err != nil {
+			return nil, "err " + err.Error()
+		}
+		// a condition that never holds (a ratio is at most 1): scripted 502/504 statuses must not trip the breaker
+		cb, err := cbreaker.New(rr, "NetworkErrorRatio() > 1.5", cbreaker.Verbose(true), cbreaker.Logger(nop))
+		if err != nil {
+			return nil, "err " + err.Error()
+		}
+		s.upsert = func(u *url.URL) error { return rr.UpsertServer(u) }
+		s.remove = rr.RemoveServer
+		next = cb
+	default:
+		return nil, "bad-op"
+	}
 	wrap := http.HandlerFunc(func(w http.ResponseWriter, r *http.Request) {
 		s.mu.Lock()
 		o := s.cur
@@ -103,8 +160,7 @@ func newScenario(cfg []string) (hx.Handler, string) {
 		if o.tls {
 			r.TLS = &tls.ConnectionState{}
 		}
-		r.URL = utils.CopyURL(s.urls[o.be])
-		fwd.ServeHTTP(w, r)
+		next.ServeHTTP(w, r)
 	})
 	s.srv = hx.NewUnstartedServer(wrap)
 	if ln, err := fx.Listen(); err == nil {
@@ -171,6 +227,16 @@ func (s *h) Op(f []string) string {
 	s.mu.Unlock()
 	for len(s.seenC) > 0 {
 		<-s.seenC
+	}
+	if s.upsert != nil { // the caller's choice of backend, expressed through the balancer's pool
+		if err := s.upsert(s.urls[be]); err != nil {
+			return "err upsert " + err.Error()
+		}
+		for name, u := range s.urls {
+			if name != be {
+				_ = s.remove(u)
+			}
+		}
 	}
 	res, err := fx.Do(s.srv.Listener.Addr().String(), m, []byte(raw.String()), 4*time.Second, nil)
 	if err != nil {
